@@ -66,6 +66,8 @@ def dot(t1, t2, k=None):
     t1, t2 = _process(t1, t2)
     if isinstance(t1, torch.Tensor) and isinstance(t2, torch.Tensor):
         return t1.flatten().dot(t2.flatten())
+    if t1.batch or t2.batch:
+        raise ValueError("Batched tensors are not supported.")
     Lprod = torch.ones([t2.ranks_tt[0], t1.ranks_tt[0]], device=t1.cores[0].device)
     if k is None:
         k = min(t1.dim(), t2.dim())
